@@ -295,3 +295,86 @@ def run(ctx, rep, tier):
     _run_l05(ctx, rep, tier)
     from .shared import delegate
     delegate(ctx, rep, tier, "C05", ("C05.l",), "C06.m", "the optimiser never creates a transition on which the early advance for a yield meets an action that re-dispatches without consuming")
+
+
+# ---------------------------------------------------------------------------------------------------------------- C06.n
+def _state_member_holds_every_number(ctx, rep, tier):
+    """C06.n: the `state` member is declared with the integer type that holds every number any template stores into it.
+
+    Numbers stored: `self.dfa.states.index(x)` (at most len(states) - 1) and `_fail_state_index()` - which is `len(states)`, one past the last state, when no
+    input can make the program fail and the fail state was removed as inaccessible. A declaration sized for len(states) - 1 truncates that marker for a machine
+    with exactly 256 (65536) states: "failed" wraps to state 0 and a later feed() answers like a fresh parser."""
+    model, E = ctx.model, ctx.emit
+    rep.rule("C06.n", "the integer type of the `state` member is chosen for a bound that is at least every number a template stores into state->state "
+                      "(state indexes; the 'failed' marker one past the last state)")
+
+    def offset(src):
+        """`len(self.dfa.states) + k` -> k ; `self.dfa.states.index(..)` -> -1 ; else None."""
+        s = src.replace(" ", "")
+        if re.fullmatch(r"self\.dfa\.states\.index\(.*\)", s):
+            return -1
+        m = re.fullmatch(r"len\(self\.dfa\.states\)(?:([+-])(\d+))?", s)
+        if m:
+            return 0 if m.group(1) is None else (int(m.group(2)) if m.group(1) == "+" else -int(m.group(2)))
+        return None
+
+    # what _fail_state_index can return
+    fsi = model.func("CodegenCtx._fail_state_index")
+    stored = {}
+    for r in ast.walk(fsi):
+        if isinstance(r, ast.Return) and r.value is not None:
+            o = offset(ast.unparse(r.value))
+            if o is None:
+                raise AnalysisError(f"C06.n: _fail_state_index returns `{ast.unparse(r.value)}` (not an index of / a linear bound on self.dfa.states)")
+            stored[f"_fail_state_index(): {ast.unparse(r.value)}"] = o
+    fail_max = max(stored.values()) if stored else None
+    # every store emitted by any generator
+    gens = [q for q, f in model.functions.items() if q.startswith("CodegenCtx.") and q.count(".") == 1 and
+            any(isinstance(n, ast.Call) and isinstance(n.func, ast.Attribute) and n.func.attr == "add" for n in ast.walk(f))]
+    n_stores = 0
+    for q in gens:
+        variants = [dict(classes={"action": cl}) for cl in model.concrete_subclasses("Action") if cl != "Action"] if q.endswith("._generate_action_implementation") else [{}]
+        for kw in variants:
+            fp = E.enumerate(q, **kw)
+            for p in fp.paths:
+                for e in events_of(fp.lines(p)):
+                    if e.kind == "SETSTATE":
+                        n_stores += 1
+                        stored.setdefault("state index", -1)
+                    elif e.kind == "SETSTATE_RAW":
+                        n_stores += 1
+                        src = e.a.strip()
+                        if src == "[[self._fail_state_index()]]" and fail_max is not None:
+                            continue
+                        m = re.fullmatch(r"\[\[(.*)\]\]", src)
+                        o = offset(m.group(1)) if m else None
+                        if o is not None:
+                            stored[f"template: {m.group(1)}"] = o
+                            continue
+                        raise AnalysisError(f"C06.n: a template stores `{src}` into state->state (not a state index, not the fail marker): teach the rule")
+    if n_stores < 5:
+        raise AnalysisError(f"C06.n: only {n_stores} stores into state->state found in the templates")
+    need = max(stored.values())
+    # the declaration
+    decl = None
+    for c in calls_in(model.func("CodegenCtx._generate_state_object_decl")):
+        if isinstance(c.func, ast.Attribute) and c.func.attr == "add" and len(c.args) == 2 and isinstance(c.args[1], ast.Constant) and c.args[1].value == "state;":
+            inner = c.args[0]
+            if isinstance(inner, ast.Call) and ast.unparse(inner.func) == "self._integer_containing" and inner.args:
+                decl = ast.unparse(inner.args[0])
+    if decl is None:
+        raise AnalysisError("C06.n: declaration of the `state` member not found (contents.add(self._integer_containing(<bound>, ...), \"state;\"))")
+    have = offset(decl)
+    rep.check(have is not None and have >= need, "C06.n", "CodegenCtx._generate_state_object_decl", "bound of the `state` member >= every stored number",
+              f"`state` is declared for values up to `{decl}`, but the templates store up to len(states){need:+d} ({', '.join(k for k, v in stored.items() if v == need)}): with exactly "
+              "256 states and no fail state the 'failed' marker 256 wraps to 0 in a uint8_t - after end() answered FAIL a later feed() answers as if nothing had happened")
+    for k in stored:
+        rep.ok("C06.n", "CodegenCtx", f"stored: {k}")
+
+
+_run_n06 = run
+
+
+def run(ctx, rep, tier):
+    _run_n06(ctx, rep, tier)
+    _state_member_holds_every_number(ctx, rep, tier)
